@@ -162,6 +162,45 @@ theorem substL_ids_exact (u : Nat → String) (ids : List (String × Tree)) (x :
       omega
 end
 
+mutual
+/-- the `references` subtrees that expansion discards below a node, in document order -/
+def refTreesT : Tree → List Tree
+  | .mk _ _ _ _ _ _ _ _ cs => refTreesL cs
+def refTreesL : List Tree → List Tree
+  | [] => []
+  | .mk i n c tl p a e ns ks :: cs =>
+      if n = "references" then Tree.mk i n c tl p a e ns ks :: refTreesL cs else refTreesL ks ++ refTreesL cs
+end
+
+theorem refIdsL_eq : ∀ (cs : List Tree), refIdsL cs = (refTreesL cs).flatMap Tree.ids
+  | [] => by simp [refIdsL, refTreesL]
+  | .mk i n c tl p a e ns ks :: cs => by
+    simp only [refIdsL, refTreesL]
+    by_cases hn : n = "references"
+    · simp only [hn, if_true, List.flatMap_cons, refIdsL_eq cs]
+    · simp only [hn, if_false, List.flatMap_append, refIdsL_eq ks, refIdsL_eq cs]
+
+theorem refIdsT_eq (t : Tree) : refIdsT t = (refTreesT t).flatMap Tree.ids := by
+  cases t with
+  | mk i n c tl p a e ns cs => simp only [refIdsT, refTreesT, refIdsL_eq cs]
+
+/-- the discarded subtrees are subtrees of the tree -/
+theorem refIdsL_le (x : String) : ∀ (cs : List Tree), (refIdsL cs).count x ≤ (Tree.idsL cs).count x
+  | [] => by simp [refIdsL]
+  | .mk i n c tl p a e ns ks :: cs => by
+    have h1 := refIdsL_le x ks
+    have h2 := refIdsL_le x cs
+    simp only [refIdsL]
+    by_cases hn : n = "references"
+    · simp only [hn, if_true, idsL_cons, List.count_append]; omega
+    · simp only [hn, if_false, idsL_cons, ids_mk, List.count_append, List.count_cons]; omega
+
+theorem refIdsT_le (x : String) (t : Tree) : (refIdsT t).count x ≤ t.ids.count x := by
+  cases t with
+  | mk i n c tl p a e ns cs =>
+    have := refIdsL_le x cs
+    simp only [refIdsT, ids_mk, List.count_cons]; omega
+
 theorem drawn_nodup (u : Nat → String) (hu : Function.Injective u) (s s2 : Nat) : (drawn u s s2).Nodup := by
   unfold drawn
   exact List.Pairwise.map u (fun a b hab h => hab (hu h)) (List.nodup_range' (s := s) (n := s2 - s))
